@@ -27,7 +27,9 @@ var exprAlphabet = []string{"(", ")", "[", "]", ".", "..", "@", ",", "::", "/", 
 	// operator names are case sensitive: these are ordinary names
 	"AND", "Or", "DIV", "Mod",
 	// XPath literals have no escapes: a backslash is an ordinary character, also right before the closing quote
-	"\"\\\"", "'a\\'", "\"x\\\\\""}
+	"\"\\\"", "'a\\'", "\"x\\\\\"",
+	// a quote that opens a literal which never ends (as the last token: nothing at all follows it)
+	"'", "\""}
 
 var lrAlphabet = []string{"/", "..", "[", "]", "=", "(", ")", "current", "a", "p:b", "xmlfoo", "u:b", ".", "*", "'s'", "1"}
 
@@ -121,6 +123,7 @@ var lexical = []string{
 	".0", ".05", ".007", ".00", "0.", "00", "007", "0.0", ".9", "1.50", "a > .05", "a[. < .01]", ". < .0", ".0.", "..0", ". 0", "a/.0",
 	"1", "1.", ".1", "1.2.3", "1e5", "1e", "1e+5", "1E5", "1.e5", ".5e3", "1..2", "0x10", "1_0", "1a", "1 e5", "12e", strings.Repeat("9", 400), "1.5.", ". 5", "1 . 5", "5 .", "..5", "1..",
 	"\"\\\"", "string-length(\"\\\")", "contains(a, \"\\\") and b", "\"a\\\" = 'a\\'", "\"\\\\\"", "'\\'", "\"\\\"\"", "concat(\"\\n\", '\\')",
+	"'", "\"", "a = '", "../y != '", "concat('a', '", "a = \"", "'a' = '", "a['",
 	"''", "\"\"", "'a", "\"a", "'a\"", "'a''", "'a' 'b'", "'it''s'", "\"it's\"", "'\xff'", "'a\xc3'", "\"\xe2\x82\"", "'\xed\xa0\x80'",
 	"", " ", "\t\n", "a\xff", "\xffa", "a:\xff", "\xff:a", "a[\xff]", "a \xff", "$a", "$p:a", "a$", "#", "a#b", "a{b}", "a\\b", "a;b", "a?b", "a~b", "a%b", "a&b", "a^b", "a`b",
 	"a:b", "a :b", "a: b", "a : b", "a:*", "a: *", "a :*", "a:b:c", "a::b", "a:", ":a", "a:1", "a:-b", "a:'b'", "p:b(", "p:concat('a','b')",
